@@ -11,14 +11,15 @@ RULE = ("valid texts from the C01 generator and a malformed stream (mutated byte
         "multi-byte characters), every 2-partition for texts up to 48 bytes and random 2..4-partitions beyond, flags over "
         "{strict, allow-trailing, validate-utf8}; non-trivial = at least one call returned continue; distinct by (text, cuts, flags)")
 ASSUMPTIONS = ["only calls after a `continue` status are compared (the property's premise)"]
-LEVEL_TEXT = ("Theorems (Coq, no axioms): chunk_independent — for ALL byte strings a and b (valid or not), all well-formed parser states and all flag "
-              "settings without UTF-8 validation, when the call on a reports that more input is needed the call on b yields the same value, status and error "
+LEVEL_TEXT = ("Theorems (Coq, no axioms): chunk_independent — for ALL byte strings a and b (valid or not), all well-formed parser states and ALL flag "
+              "settings (strict, allow-trailing, VALIDATE_UTF8), when the call on a reports that more input is needed the call on b yields the same value, status and error "
               "code as the single call on a ++ b, with the end position counted from the start of a; chunks_independent — the same for any number of calls, by "
               "induction on the chunk list.  Proved through a simulation showing that the call-locals re-initialised at every call (current character, pending "
               "child, number-scanner flags) are dead or re-derived exactly from the saved text, and that one dispatch never reads the character offset.  The "
               "direct oracle replays split-vs-whole (and chunked streams of several documents) on the real library for every generated partition.")
-LEVEL_NOTE = ("With VALIDATE_UTF8 the theorem needs the split on a character boundary (the continuation counter is a call-local; a call that ends inside a "
-              "multi-byte character reports a UTF-8 error, not 'continue', so the property's premise fails there: C03_utf8_split_first_call_errors).  Streams of "
+LEVEL_NOTE = ("With VALIDATE_UTF8 a call that ends inside a multi-byte character reports a UTF-8 error, not 'continue' (the continuation counter is a "
+              "call-local), so the property's premise fails there (C03_utf8_split_first_call_errors); whenever the first call does ask for more input the "
+              "theorem applies.  Streams of "
               "several documents are covered by the correspondence and the oracle, not by a theorem.  Model tied to the C code by sampled differential execution.")
 
 
@@ -90,6 +91,14 @@ def gen(rng, tier):
             s_, t_ = jsongen.gen_doc(rng, depth=rng.choice([0, 1, 2]), width=3)
             docs.append(t_)
         sep = rng.choice([b"", b" ", b"\n", b" ", b"\t\n"])
+        fl = rng.choice([0, 0, 0, UTF8, STRICT | TRAILING, TRAILING])
+        cmt = None
+        if not (fl & STRICT) and rng.random() < 0.4:
+            # comments between / after the documents (default mode), cut inside them below
+            cmt = rng.choice([b"/* tail */", b" /* a * b */ ", b"// x\n", b" //\n", b"/**/", b" /* [1] \"q\" */"])
+            sep = cmt
+            if rng.random() < 0.5:
+                docs.append(b"")
         t = sep.join(docs)
         r = rng.random()
         if r < 0.25:
@@ -99,8 +108,14 @@ def gen(rng, tier):
         t = t[:300]
         if b"\x00" in t or len(t) < 2:
             continue
-        fl = rng.choice([0, 0, 0, UTF8, STRICT | TRAILING, TRAILING])
         cuts = jsongen.partitions(rng, len(t), rng.choice([2, 2, 3, 5, min(len(t), 12)]))
+        if cmt is not None and rng.random() < 0.7:
+            # one cut strictly inside an occurrence of the comment
+            p0 = t.find(cmt.strip(b" "))
+            if p0 >= 0 and len(cmt.strip(b" ")) >= 2:
+                c0 = p0 + rng.randint(1, len(cmt.strip(b" ")) - 1)
+                if 0 < c0 < len(t):
+                    cuts = sorted(set((cuts if rng.random() < 0.5 else []) + [c0]))
         ops = ["S" + hx(t) + "".join(",%d" % c for c in cuts), "N", "S" + hx(t)]
         out.append((line(32, fl, ops), {"kind": "stream", "text": t, "cuts": cuts, "nparts": 0, "flags": fl, "stream": True}))
     return out
